@@ -415,6 +415,15 @@ func vlHistory(t *testing.T, enc *json.Encoder, hist int, rng *rand.Rand, nblock
 			"replayed-spend", "coins-created", "coins-destroyed", "hours-created", "zero-coin-output", "txn-badsig", "repeat-head", "second-genesis", "empty-block", "unknown-input", "dup-input", "hours-plus-one", "hours-plus-one", "hours-wrap"}
 		rng.Shuffle(len(muts), func(i, j int) { muts[i], muts[j] = muts[j], muts[i] })
 		sel := muts[:3+rng.Intn(4)]
+		if bi%2 == 0 {
+			has := false
+			for _, m := range sel {
+				has = has || m == "double-spend-in-block"
+			}
+			if !has {
+				sel = append([]string{"double-spend-in-block"}, sel...)
+			}
+		}
 		if bi == nblocks-1 && hist%2 == 0 {
 			sel = append(sel, "hours-wrap") // every run exercises the known finding F16 and the legacy rule behind it
 		}
@@ -446,22 +455,30 @@ func vlHistory(t *testing.T, enc *json.Encoder, hist int, rng *rand.Rand, nblock
 			case "uxhash":
 				rng.Read(b.Head.UxHash[:])
 			case "double-spend-in-block":
-				// the second spend shares any one input (first or last position), alone or together with a fresh
-				// input, and is placed before or after the block's own transactions
-				shared := ins1[rng.Intn(len(ins1))]
-				dsIns := []coin.UxOut{shared}
-				if len(ins2) == 0 && len(rest) > 0 && rng.Intn(2) == 0 {
-					if rng.Intn(2) == 0 {
-						dsIns = []coin.UxOut{rest[0], shared}
-					} else {
-						dsIns = []coin.UxOut{shared, rest[0]}
+				// the second spend shares one input of the block's first transaction (each of its positions in turn), alone or
+				// together with a fresh input at either side, and is placed before or after the block's own transactions:
+				// every variant is offered (the last one through the common path below)
+				var variants []coin.Block
+				for _, shared := range ins1 {
+					sets := [][]coin.UxOut{{shared}}
+					if len(ins2) == 0 && len(rest) > 0 {
+						sets = append(sets, []coin.UxOut{rest[0], shared}, []coin.UxOut{shared, rest[0]})
+					}
+					for _, dsIns := range sets {
+						ds := mkTxn(dsIns, 0, false, false)
+						variants = append(variants, rebuild(append(append(coin.Transactions{}, blk.Body.Transactions...), ds)),
+							rebuild(append(coin.Transactions{ds}, blk.Body.Transactions...)))
 					}
 				}
-				ds := mkTxn(dsIns, 0, false, false)
-				if rng.Intn(2) == 0 {
-					b = rebuild(append(append(coin.Transactions{}, blk.Body.Transactions...), ds))
-				} else {
-					b = rebuild(append(coin.Transactions{ds}, blk.Body.Transactions...))
+				rng.Shuffle(len(variants), func(i, j int) { variants[i], variants[j] = variants[j], variants[i] })
+				for _, vb := range variants[:len(variants)-1] {
+					if !diverged && offer(mut, sign(vb, k), sigOK, bodyOK, badSig) {
+						diverged = true
+					}
+				}
+				b = variants[len(variants)-1]
+				if diverged {
+					skip = true
 				}
 			case "replayed-spend":
 				if len(spent) == 0 {
